@@ -612,6 +612,27 @@ def inline_calls(fb, fn, should_inline, max_inlines=10):
                 if b['id'] == g.exit:
                     b2['succs'] = [post_id]
                 view.blocks[b2['id']] = b2
+            # path sensitivity for bool helpers: when the call's value is (the negation of) the branch condition of the block
+            # it sits in, a `return <constant>` of the callee continues directly on the branch edge that value selects
+            if 'cond' in post and len(post['succs']) == 2:
+                c = view.nodes.get(view.strip(post['cond']))
+                neg = False
+                hops = 0
+                while c is not None and c.get('k') == 'unop' and c.get('op') == '!' and hops < 4:
+                    neg = not neg
+                    c = view.nodes.get(view.strip(c['sub']))
+                    hops += 1
+                allowed = set(view.subtree(post['cond'])) | {post['cond']}
+                if c is not None and c['id'] == n['id'] and all(e in allowed for e in post['elems']):
+                    for b in g.blocks.values():
+                        for e in b['elems']:
+                            m = g.nodes[e]
+                            if m.get('k') == 'return' and 'sub' in m:
+                                v = g.const_value(m['sub'])
+                                if v is not None:
+                                    tgt = post['succs'][0 if (bool(v) != neg) else 1]
+                                    if tgt is not None:
+                                        view.blocks[b['id'] + boff]['succs'] = [tgt]
             view.loops = view.loops + list(g.loops)
             n2 = dict(view.nodes[n['id']])
             n2['_inlined'] = g.q
